@@ -50,6 +50,91 @@ def number_len(data, p):
     return 1 + number_extra(nth(data, p))
 
 
+# opaque versions -----------------------------------------------------------------------------------
+# NV / NL are number_value / number_len behind an uninterpreted symbol ("opaque" spec functions): contracts about
+# lists of NUMBERs talk about NV/NL only, which keeps the solver queries in EUF+LIA.  Two kinds of facts connect them
+# to the definition:  reveal_number(c, data, p)  (the definitional axiom NV(data,p) == number_value(data,p), used where
+# a primitive's contract is proved or applied) and the *located* lemma (contracts/lemmas_c17.py, proved once from the
+# definition for arbitrary x, y, z): if the NUMBER at offset p of x ++ y ++ z lies inside y, it is the NUMBER of y at
+# offset p - |x|.  Instances of the located lemma are added automatically for every part of a concatenation.
+_LOCATED_SEEN = set()
+
+
+def _opq(name, data, p):
+    import z3
+    from pyvc import values as V
+
+    d = V.to_seq(data, "byte", "bytes")
+    f = V.uf(name, V.seq_sort("byte"), z3.IntSort(), z3.IntSort())
+    return V.SInt(f(d.t, V._zi(p)))
+
+
+def NL(data, p):
+    """announced length (1 + extra bytes) of the NUMBER at data[p]"""
+    if not is_sym(data) and not is_sym(p):
+        return number_len(data, p)
+    _locate(data, p)
+    return _opq("NUMBER_len", data, p)
+
+
+def NV(data, p):
+    """value of the NUMBER at data[p]"""
+    if not is_sym(data) and not is_sym(p):
+        return number_value(data, p)
+    _locate(data, p)
+    return _opq("NUMBER_value", data, p)
+
+
+def reveal_number(data, p):
+    """definitional axiom instance: NV/NL at (data, p) are number_value/number_len there"""
+    if not is_sym(data) and not is_sym(p):
+        return True
+    return And(_opq("NUMBER_value", data, p) == number_value(data, p), _opq("NUMBER_len", data, p) == number_len(data, p), _opq("NUMBER_len", data, p) >= 1, _opq("NUMBER_len", data, p) <= 9, _opq("NUMBER_value", data, p) >= 0)
+
+
+def _locate(data, p):
+    """range facts of NL/NV at (data, p) and instances of the located lemma for every part of a concatenation
+    (added to the path condition once per path-condition prefix)"""
+    import z3
+    from pyvc import values as V
+
+    eng = V.ENGINE
+    if eng is None or not hasattr(eng, "pc") or not is_sym(data):
+        return
+    d = V.to_seq(data, "byte", "bytes")
+    key = (d.t.get_id(), p.t.get_id() if is_sym(p) else ("c", p))
+    seen = eng.__dict__.setdefault("_located_seen", {})
+    if key in seen:
+        idx, fid = seen[key]
+        if idx < len(eng.pc) and eng.pc[idx].get_id() == fid:
+            return  # the instances are still part of the current path condition
+    nl_d, nv_d = _opq("NUMBER_len", d, p), _opq("NUMBER_value", d, p)
+    bounds = (And(nl_d >= 1, nl_d <= 9, nv_d >= 0)).t
+    seen[key] = (len(eng.pc), bounds.get_id())
+    eng.pc.append(bounds)
+    if hasattr(eng, "_keep"):
+        eng._keep.append(d)
+        if is_sym(p):
+            eng._keep.append(p)
+    parts = V._flatten_concat(d.t)
+    if len(parts) < 2:
+        return
+    off = 0
+    for part in parts:
+        P = V.SSeq(part, "byte", "bytes")
+        ln = 1 if z3.is_app_of(part, z3.Z3_OP_SEQ_UNIT) else L(P)
+        rel = p - off
+        first_inside = And(rel >= 0, rel < ln)
+        if first_inside is not False:
+            nl_p, nv_p = _opq("NUMBER_len", P, rel), _opq("NUMBER_value", P, rel)
+            f1 = Implies(first_inside, nl_d == nl_p)
+            f2 = Implies(And(first_inside, rel + nl_d <= ln), nv_d == nv_p)
+            for f in (f1, f2):
+                if is_sym(f):
+                    eng.pc.append(f.t)
+        off = off + ln
+
+
 def dec_number(data):
     """independent decoder for concrete bytes: (value, encoded length)"""
     b0 = data[0]
@@ -112,6 +197,10 @@ def uint64_le(data, p):
 def is_number(e, v):
     """e is a NUMBER encoding of v (any legal length, docs/archive_format.rst table)"""
     return And(L(e) >= 1, L(e) <= 9, L(e) == number_len(e, 0), number_value(e, 0) == v)
+
+
+def is_number_opaque(e, v):
+    return And(L(e) >= 1, L(e) <= 9, L(e) == NL(e, 0), NV(e, 0) == v)
 
 
 def boolean_list_clauses(c, vec, bs, all_defined):
